@@ -148,6 +148,22 @@ Theorem C08_get_transactions_before_fix_refuted :
   exists ids txs, get_transactions_before_fix (fun _ _ => Ok tt) ids txs = Panic PIndex.
 Proof. exact get_transactions_before_fix_refuted. Qed.
 
+(** the goroutines behind ParsePacket: Connection.reader (tcp.pong / auth nonce /
+    forward) and Client.reader (adnl.message.answer -> processQueryAnswer) never
+    panic on any framed payload, whatever its length and constructor id *)
+Theorem C08_conn_reader_total :
+  forall payload p, conn_reader_step payload <> Panic p.
+Proof. intros payload. apply np_spec. apply conn_reader_step_total. Qed.
+
+Theorem C08_client_reader_total :
+  forall known payload, bytes_ok payload -> forall p, client_reader_step known payload <> Panic p.
+Proof. intros k b H. apply np_spec. apply client_reader_step_total. exact H. Qed.
+
+(** recognising tcp.pong by its constructor id alone would not do *)
+Theorem C08_conn_reader_pong_by_magic_only_refuted :
+  exists payload, length payload = 4%nat /\ conn_reader_step_gen false payload = Panic PIndex.
+Proof. exact conn_reader_pong_by_magic_only_refuted. Qed.
+
 (** Non-vacuity: a schema with a vector of structs satisfies [sok], decoding a
     valid encoding succeeds and consumes it. *)
 Example C08_sok_satisfiable :
